@@ -13,6 +13,8 @@ CNUM = {c: i + 1 for i, c in enumerate(CHANS)}
 REASONS = {"FORBIDDEN": 1, "USER_NOT_REGISTERED": 2, "NOT_ALLOWED": 3, "USER_IN_CHANNEL": 4, "CHANNEL_IS_FULL": 5, "POLICY_VIOLATION": 6,
            "RESOURCE_CONFLICT": 7, "CHANNEL_NOT_FOUND": 8, "USER_NOT_IN_CHANNEL": 9, "INTERNAL_SERVER_ERROR": 10, "USERNAME_IN_USE": 11}
 CLOSING = {6, 10}
+RECOVERABLE = {"CHANNEL_NOT_FOUND", "CHANNEL_IS_FULL", "FORBIDDEN", "SERVER_OVERLOADED", "NOT_ALLOWED", "NOT_IMPLEMENTED", "USER_IN_CHANNEL",
+               "USER_NOT_IN_CHANNEL", "USERNAME_IN_USE", "USER_NOT_REGISTERED", "RESOURCE_CONFLICT", "RESPONSE_TOO_LARGE"}
 PAYLOADS = [b"p-one", b"p-two", b"p-three", b"p-four", b"p-five", b"p-six", b"p-seven", b"p-eight"]
 
 
@@ -148,6 +150,12 @@ class CGen:
         self.ops.append({"t": "batch", "acts": ja, "script": list(script), "conc": ca, "reqs": rq,
                          "hangups": [a[1] for a in acts if a[0] == "hangup"]})
 
+    def direct(self, users, p=None):
+        """the modulator pushes a private payload to these users (M2S_MOD_DIRECT accepted): every live connection of each"""
+        p = p if p is not None else self.r.randrange(len(PAYLOADS))
+        self.ops.append({"t": "m2s_direct", "targets": [u.encode().hex() for u in users], "payload": PAYLOADS[p].hex(), "script": [],
+                         "conc": [("direct", [UNUM[u] for u in users], p + 1)], "direct": {"users": list(users), "payload": p}})
+
     def settle(self):
         self.ops.append({"t": "advance", "ms": 50, "conc": []})
 
@@ -249,6 +257,9 @@ def frame_out(k, f):
     if n == "MESSAGE":
         pl = bytes.fromhex(f["payload"]) if f.get("payload") else b""
         return "OMsg %d %d %d %d" % (k, CNUM.get(g("channel").decode("latin1"), 99), nid_user(g("from")), (PAYLOADS.index(pl) + 1) if pl in PAYLOADS else 99)
+    if n == "MOD_DIRECT":
+        pl = bytes.fromhex(f["payload"]) if f.get("payload") else b""
+        return "ODirect %d %d" % (k, (PAYLOADS.index(pl) + 1) if pl in PAYLOADS else 99)
     if n == "MEMBERS_ACK":
         return "OMembers %d %d [%s]" % (k, g("id"), "; ".join(str(nid_user(x)) for x in (g("members") or [])))
     if n == "CHANNELS_ACK":
@@ -276,6 +287,8 @@ def act_term(a):
         return "AHangup %d" % a[1]
     if a[0] == "expire":
         return "AExpire %d %d" % (a[1], a[2])
+    if a[0] == "direct":
+        return "ADirect [%s] %d" % ("; ".join(map(str, a[1])), a[2])
     return "ARelease %d %s" % (a[1], b(a[2]))
 
 
@@ -449,7 +462,9 @@ def namesake_family(r, thorough):
             g.send(bb, [g.join(bb, ch)])
         n = g.park()
         g.hangup(bb, [{"park": n}])
+        g.direct(["bob", "alice"])           # bob has no connection at this moment: only alice gets it
         g.open("bob")
+        g.direct(["bob", "bob", "carol"])    # named twice: once; carol is not connected
         for ch in chs:
             g.send(a, [g.bcast(a, ch)])
         g.release(n, "ok")
@@ -669,13 +684,25 @@ def random_family(r, thorough):
         for u in USERS[:3]:
             g.open(u)
         outstanding = []
+        reader_sent = set()      # channels on which a reading request (BROADCAST / MEMBERS / GET_CHAN_ACL) may still be waiting
+        inflight = {}            # upper bound of the requests of a connection that may still be in progress (the model has no
+                                 # in-flight limit: the histories stay below max_inflight_requests = 10)
         for step in range(r.randrange(8, 18)):
+            if not outstanding:
+                reader_sent.clear()
+                inflight = {}
             x = r.random()
             live = sorted(g.live)
             if not live:
                 g.open(r.choice(USERS[:3]))
                 continue
             k = r.choice(live)
+            if inflight.get(k, 0) >= 8 and x < 0.70:
+                if outstanding:
+                    g.release(outstanding.pop(r.randrange(len(outstanding))), r.choice(["ok", "ok", "err"]))
+                continue
+            if x < 0.70:
+                inflight[k] = inflight.get(k, 0) + 1
             sc = []
             for _ in range(2):
                 y = r.random()
@@ -688,6 +715,15 @@ def random_family(r, thorough):
                 else:
                     sc.append("ok")
             ch = r.choice(CHANS[:2])
+            # at most one reading request per channel may wait for a channel lock at a time: two readers waiting behind
+            # a writer that is overtaken by another writer hand the "no writer" notification to each other for ever
+            # (async-lock 3.4 RawRead::poll notifies the next reader whether or not it could take the lock): the worker
+            # spins until the writer leaves, and under the harness's paused clock "until" never comes (DESIGN section 5)
+            if 0.45 <= x < 0.70 and not (0.64 <= x < 0.70 and False):
+                if ch in reader_sent:
+                    x = 0.10 if r.random() < 0.6 else 0.40          # a JOIN or a LEAVE instead
+                else:
+                    reader_sent.add(ch)
             if x < 0.30:
                 g.send(k, [g.join(k, ch, ob=r.choice([None, None, None] + USERS[:3]))], sc)
             elif x < 0.45:
@@ -702,8 +738,10 @@ def random_family(r, thorough):
                     g.send(k, [g.setacl(k, ch, ty, r.random() < 0.6, r.sample(USERS[:3], r.choice([1, 1, 2])))], sc)
                 else:
                     g.send(k, [g.getacl(k, ch, ty)], sc)
-            elif x < 0.78 and outstanding:
+            elif x < 0.74 and outstanding:
                 g.release(outstanding.pop(r.randrange(len(outstanding))), r.choice(["ok", "ok", "err"]))
+            elif x < 0.78:
+                g.direct(r.sample(USERS[:3], r.choice([1, 2])) + ([r.choice(USERS[:3])] if r.random() < 0.3 else []))
             elif x < 0.86:
                 g.hangup(k, sc)
             elif x < 0.94:
@@ -832,6 +870,27 @@ def monitor(case, obs):
                             viol.append(("C01", what, t))
             if v.get("closed"):
                 end_session(k, t)
+            # a closing ERROR: the server has ended this connection even if the client has not seen the EOF yet
+            if any("undecodable" not in f and fn(f) == "ERROR" and fg(f, "reason").decode("latin1") not in RECOVERABLE for f in v["frames"]):
+                end_session(k, t)
+        if op.get("direct"):
+            want = {k for k in user if k not in gone and user[k] in op["direct"]["users"]}
+            for k, v in sorted(recv.items()):
+                got = [f for f in v["frames"] if "undecodable" not in f and fn(f) == "MOD_DIRECT"]
+                if got and k not in want:
+                    viol.append(("C17", f"connection {k} ({user.get(k)}) received a direct payload addressed to {op['direct']['users']}", t))
+                if len(got) > 1:
+                    viol.append(("C17", f"connection {k} received the direct payload {len(got)} times", t))
+                for f in got:
+                    if bytes.fromhex(f.get("payload") or "") != PAYLOADS[op["direct"]["payload"]]:
+                        viol.append(("C17", f"connection {k} received a direct payload with other bytes than the modulator pushed", t))
+            for k in sorted(want):
+                if not [f for f in recv.get(k, {"frames": []})["frames"] if "undecodable" not in f and fn(f) == "MOD_DIRECT"] and not recv.get(k, {}).get("closed"):
+                    viol.append(("C17", f"connection {k} ({user[k]}), a live connection of an addressed user, did not receive the direct payload", t))
+        else:
+            for k, v in recv.items():
+                if any("undecodable" not in f and fn(f) == "MOD_DIRECT" for f in v["frames"]):
+                    viol.append(("C17", f"connection {k} received a MOD_DIRECT although the modulator pushed nothing in this step", t))
         was_parked = bool(o.get("parked"))
         k0 = op.get("k")
         fr = [f for f in recv.get(k0, {"frames": []})["frames"] if "undecodable" not in f] if k0 is not None else []
@@ -933,3 +992,45 @@ def monitor(case, obs):
             if len(own & m) != 1:
                 viol.append(("C04", f"{ch} has members {sorted(m)} but the owner probe (removal on behalf of a non-member) was accepted for {sorted(own)}: exactly one member must own it", len(ops) - 1))
     return viol
+
+
+# ---------- running the histories, with a classification of histories on which the process does not come back ----------
+def run_conc(cases, tag, batch_timeout=180):
+    """(observations or None, spinning, blocked): runs the batch; if it does not come back, every history is run on its own
+    and a history whose process is still there after 20 s is classified by what the process does: burning CPU without ever
+    becoming idle (the runtime is never idle, so the paused clock never advances: the reader hand-off loop of the RwLock,
+    a library behaviour recorded in DESIGN section 5) -> skipped and counted; asleep -> a blocked worker, reported."""
+    import json, os, subprocess, time
+    from common import harness_bin, WORK, ENV
+    obs, out = sl.run_histories(cases, "debug", tag=tag, timeout=batch_timeout)
+    if obs is not None:
+        return obs, [], []
+    res, spinning, blocked = [], [], []
+    for i, c in enumerate(cases):
+        cin, cout = os.path.join(WORK, f"h_one_{tag}_in.json"), os.path.join(WORK, f"h_one_{tag}_out.json")
+        json.dump([c], open(cin, "w"))
+        if os.path.exists(cout):
+            os.remove(cout)
+        p = subprocess.Popen([harness_bin("debug"), "server", cin, cout], stdout=subprocess.DEVNULL, stderr=subprocess.DEVNULL, env=ENV)
+        t0 = time.time()
+        while p.poll() is None and time.time() - t0 < 20:
+            time.sleep(0.05)
+        if p.poll() is None:
+            def ticks():
+                f = open("/proc/%d/stat" % p.pid).read().rsplit(")", 1)[1].split()
+                return int(f[11]) + int(f[12])
+            try:
+                a = ticks()
+                time.sleep(0.5)
+                busy = ticks() - a >= 20
+            except OSError:
+                busy = False
+            p.kill()
+            p.wait()
+            (spinning if busy else blocked).append(i)
+            res.append({"setup_error": "history skipped: the process did not come back (%s)" % ("busy" if busy else "blocked")})
+        elif os.path.exists(cout):
+            res.append(json.load(open(cout))[0])
+        else:
+            res.append({"setup_error": "harness exited %s without output" % p.returncode})
+    return res, spinning, blocked
